@@ -795,5 +795,144 @@ theorem backtrack_spec {I : Inst α} {source : Nat} {s : SState α} (hinv : Tree
   obtain ⟨gt, hgt⟩ := labelled_of_entry hinv ht
   exact ⟨route, gt, hrun, pathTo_routeChain hinv hp, hgt, pathTo_cost_le hinv hp gt hgt⟩
 
+/-! ### Consequences: the tree is rooted at the source -/
+
+/-- the parent map of the tree (identity where there is no entry) -/
+def parent (sol : Nat → Option (Branch α)) (v : Nat) : Nat :=
+  match sol v with
+  | some b => b.terminal
+  | none => v
+
+theorem parent_of_entry {sol : Nat → Option (Branch α)} {v : Nat} {b : Branch α}
+    (h : sol v = some b) : parent sol v = b.terminal := by
+  simp [parent, h]
+
+/-- along a `PathTo` of length `n`: `n` parent steps reach the source, every earlier iterate is a
+non-source vertex with an entry, and each step strictly lowers the label -/
+theorem pathTo_iterate {I : Inst α} {source : Nat} {s : SState α} (hinv : TreeInv I source s)
+    {t : Nat} {r : List (Branch α)} (h : PathTo source s.sol t r) :
+    (parent s.sol)^[r.length] t = source ∧
+    ∀ i, i < r.length →
+      (parent s.sol)^[i] t ≠ source ∧ (s.sol ((parent s.sol)^[i] t)).isSome ∧
+      LabelLt s ((parent s.sol)^[i + 1] t) ((parent s.sol)^[i] t) := by
+  induction h with
+  | nil => exact ⟨rfl, fun i hi => by simp at hi⟩
+  | @snoc v b r hv hb hr ih =>
+    have hpar : parent s.sol v = b.terminal := parent_of_entry hb
+    refine ⟨?_, ?_⟩
+    · rw [List.length_append, List.length_singleton, Function.iterate_succ_apply, hpar]
+      exact ih.1
+    · intro i hi
+      rw [List.length_append, List.length_singleton] at hi
+      cases i with
+      | zero =>
+        refine ⟨hv, by simp [hb], ?_⟩
+        simp only [Function.iterate_succ_apply, Function.iterate_zero, id_eq, hpar]
+        exact parent_label_lt hinv hb
+      | succ i =>
+        have := ih.2 i (by omega)
+        simp only [Function.iterate_succ_apply, hpar] at this ⊢
+        exact this
+
+/-- `tree_rooted`: from any vertex with a tree entry, iterating `parent` reaches the source after
+`n` steps with `1 ≤ n ≤ solSize`, passing only through non-source vertices with entries, with
+strictly decreasing labels and therefore without repeating a vertex -/
+theorem tree_rooted {I : Inst α} {source : Nat} {s : SState α} (hinv : TreeInv I source s)
+    {v : Nat} (hv : (s.sol v).isSome) :
+    ∃ n, 0 < n ∧ n ≤ s.solSize ∧ (parent s.sol)^[n] v = source ∧
+      (∀ i, i < n → (parent s.sol)^[i] v ≠ source ∧ (s.sol ((parent s.sol)^[i] v)).isSome) ∧
+      (∀ i j, i < j → j ≤ n → LabelLt s ((parent s.sol)^[j] v) ((parent s.sol)^[i] v)) ∧
+      (∀ i j, i < j → j ≤ n → (parent s.sol)^[i] v ≠ (parent s.sol)^[j] v) := by
+  obtain ⟨r, hp, _⟩ := backtrack_ok hinv (Or.inr hv)
+  obtain ⟨h1, h2⟩ := pathTo_iterate hinv hp
+  have hvs : v ≠ source := by
+    intro h
+    rw [h, hinv.sol_source] at hv
+    simp at hv
+  have hlen : 0 < r.length := by
+    rcases Nat.eq_zero_or_pos r.length with h | h
+    · exact absurd ((pathTo_nil_iff hp).1 (List.length_eq_zero_iff.1 h)) hvs
+    · exact h
+  have hlt : ∀ i j, i < j → j ≤ r.length →
+      LabelLt s ((parent s.sol)^[j] v) ((parent s.sol)^[i] v) := by
+    intro i j hij
+    induction j with
+    | zero => omega
+    | succ j ih =>
+      intro hj
+      have hstep := (h2 j (by omega)).2.2
+      rcases Nat.lt_succ_iff_lt_or_eq.1 hij with h | h
+      · exact hstep.trans (ih h (by omega))
+      · rw [h]; exact hstep
+  refine ⟨r.length, hlen, pathTo_length_le hinv hp, h1,
+    fun i hi => ⟨(h2 i hi).1, (h2 i hi).2.1⟩, hlt, ?_⟩
+  intro i j hij hj
+  exact (hlt i j hij hj).ne.symm
+
+/-! ### `runVertexOriented` -/
+
+/-- with a target other than the source, a successful `run_vertex_oriented` returns a route, the
+final state satisfies the invariant, the route is the backtrack of the target's tree entry with all
+`RouteChain` facts, and its summed cost is at most the target's label -/
+theorem runVertexOriented_route {I : Inst α} (hI : WF I) (source t : Nat) (sched : List Nat)
+    (res : SearchResult α) (hts : t ≠ source)
+    (h : runVertexOriented I source (some t) sched = .ok res) :
+    TreeInv I source res.final ∧ (res.final.sol t).isSome ∧
+    ∃ route gt, res.route = some route ∧ route ≠ [] ∧
+      RouteChain I source res.final t route ∧ res.final.g t = some gt ∧
+      (route.map (fun b => b.access + b.traversal)).sum ≤ gt := by
+  unfold runVertexOriented at h
+  split at h
+  · cases h
+  · rename_i s hrun
+    rcases runAStar_treeInv' hI source (some t) sched s hrun with h0 | ⟨_, hinv, hent⟩
+    · exact absurd (Option.some.inj h0.1) hts
+    · have htent : (s.sol t).isSome := hent t rfl
+      simp only at h
+      split at h
+      · cases h
+      · rename_i r hr
+        cases h
+        obtain ⟨gt, hgt⟩ := labelled_of_entry hinv (Or.inr htent)
+        have hrc := route_chain hinv hr
+        exact ⟨hinv, htent, r, gt, rfl, fun h => hts (hrc.nil_iff.1 h), hrc, hgt,
+          route_cost_le_label hinv hr hgt⟩
+
+/-- with a target other than the source, `run_vertex_oriented` fails only where `run_a_star`
+fails: the backtrack adds no error of its own -/
+theorem runVertexOriented_error {I : Inst α} (hI : WF I) (source t : Nat) (sched : List Nat)
+    (k : ErrKind) (hts : t ≠ source)
+    (h : runVertexOriented I source (some t) sched = .error k) :
+    runAStar I source (some t) sched = .error k := by
+  unfold runVertexOriented at h
+  split at h
+  · rename_i k' hk
+    cases h; exact hk
+  · rename_i s hrun
+    rcases runAStar_treeInv' hI source (some t) sched s hrun with h0 | ⟨_, hinv, hent⟩
+    · exact absurd (Option.some.inj h0.1) hts
+    · obtain ⟨route, _, hbt⟩ := backtrack_ok hinv (Or.inr (hent t rfl))
+      simp only [hbt] at h
+      cases h
+
+/-- target = source: the empty result and the empty route -/
+theorem runVertexOriented_source (I : Inst α) (source : Nat) (sched : List Nat) :
+    ∃ res, runVertexOriented I source (some source) sched = .ok res ∧ res.route = some [] ∧
+      res.final.solSize = 0 := by
+  simp [runVertexOriented, runAStar, backtrack, backtrackAux]
+
+/-- no target: no route, and the tree satisfies the invariant -/
+theorem runVertexOriented_tree {I : Inst α} (hI : WF I) (source : Nat) (sched : List Nat)
+    (res : SearchResult α) (h : runVertexOriented I source none sched = .ok res) :
+    res.route = none ∧ TreeInv I source res.final := by
+  unfold runVertexOriented at h
+  split at h
+  · cases h
+  · rename_i s hrun
+    cases h
+    rcases runAStar_treeInv hI source none sched s hrun with h0 | hinv
+    · cases h0.1
+    · exact ⟨rfl, hinv⟩
+
 end SearchTree
 end Compass
